@@ -181,7 +181,8 @@ def resolve_natural(ops, out):
     rops, grp = [], []
     for op, items in zip(ops, gs):
         if op[0] != "W":
-            sid = re.match(r"[A-Z](\d+)", op).group(1) if op[0] != "K" else "-"
+            own = re.match(r"[A-Z](\d+)", op)
+            sid = own.group(1) if own and op[0] != "K" else "-"
             for it in items:
                 if it[0] == "T" and it[1] in "cn":
                     seen.add((sid, it[2:].split(".")[0]))
@@ -219,13 +220,19 @@ def resolve_natural(ops, out):
     return rops, grp
 
 
-def peer_ok(ops, out):
-    """the peer of the property: ACK / RST only for message ids that were on the wire before"""
+def peer_ok(ops, out, verdict=None):
+    """the peer of the property: ACK / RST only for message ids that were on the wire before.
+    With a checker verdict "bad sid=.. op=N": only the history up to the rejected event counts."""
     gs = groups(out)
     if gs is None or len(gs) != len(ops):
         return True
+    upto = len(ops)
+    if verdict:
+        ks = [int(x) for x in re.findall(r"op=(\d+)", verdict)]
+        if ks:
+            upto = min(ks) + 1
     seen = set()
-    for op, items in zip(ops, gs):
+    for op, items in list(zip(ops, gs))[:upto]:
         if op[0] in "AR":
             sid, mid = op[1:].split(",")
             if (sid, mid) not in seen:
@@ -357,7 +364,7 @@ def main(run):
         if ml is None:
             return "tie", "unexpected output " + c[0]
         v, _ = vlib.run_lines_robust(model, [ml])
-        if v[0] != "ok" and peer_ok(ops, c[0]):
+        if v[0] != "ok" and peer_ok(ops, c[0], v[0]):
             return "oracle", v[0]
         if not any(o[0] == "W" for o in ops):
             m, _ = vlib.run_lines_robust(model, [ln])
@@ -395,7 +402,7 @@ def main(run):
             kind, what = "crash", "the library crashes or never returns (%s)" % co
         elif co == "<not run>":
             continue
-        elif verdict.get(i, "unparsed") != "ok" and peer_ok(ops, co):
+        elif verdict.get(i, "unparsed") != "ok" and peer_ok(ops, co, verdict.get(i)):
             kind, what = "oracle", "history rejected by the property checker (%s)" % verdict.get(i, "unparsed")
         elif not nat and canon(model_out.get(i, "<missing>"), ops) != canon(co, ops):
             kind, what = "tie", "implementation differs from the proved model"
@@ -420,8 +427,9 @@ def main(run):
             continue
         reported.add(sl)
         c1, _ = run_cases(drv, [sl])
-        m1 = ["(natural-time history: %s)" % (nat_agrees(None, prefix, small, c1[0])[1] if c1 else "")]
-        if not any(o[0] == "W" for o in small):
+        if any(o[0] == "W" for o in small):
+            m1 = ["(natural-time history: %s)" % nat_agrees(None, prefix, small, c1[0])[1]]
+        else:
             m1, _ = vlib.run_lines_robust(model, [sl])
         replay = ("case: %s\nimpl : %s\nmodel: %s\nchecker on impl trace: %s\n(original case: %s)\n"
                   "replay: echo '<case>' | .build/obj/base/h_nstart   (NS_DEBUG=1 prints con_active)\n"
@@ -445,6 +453,9 @@ def main(run):
         sweep_cfgs = [(1, 1, True, "c"), (2, 1, False, "c"), (1, 2, True, "s")]
         sw = [(p, o) for (ns_, rt, e0, kd) in sweep_cfgs
               for p, o in gen_nstart.enum_cases(depth, ns_, rt, e0, client=(kd == "c"))]
+        # ... all messages with ONE token, NSTART 3 >= number of submissions (so nothing with that
+        # token is ever held): cancel by token removes several send-queue nodes at once
+        sw += list(gen_nstart.enum_cases(depth - 1, 3, 1, True, sametok=True))
         # ... and with a nack handler that retries every given-up / reset CON from the callback
         sw += list(gen_nstart.enum_cases(depth - 1, 1, 1, True, hooks=True))
         # ... and two sessions sharing the context's send queue, using the same message ids
@@ -460,7 +471,7 @@ def main(run):
             why = None
             if sc[i] in ("HANG", "<not run>") or sc[i].startswith("CRASH") or sc[i].startswith("ERROR"):
                 why = "the library crashes or never returns (%s)" % sc[i]
-            elif smon_in[i] is None or (smon[i] != "ok" and peer_ok(o, sc[i])):
+            elif smon_in[i] is None or (smon[i] != "ok" and peer_ok(o, sc[i], smon[i])):
                 why = "history rejected by the property checker (%s)" % (smon[i] if smon_in[i] else "unparsed")
             elif canon(sm[i], o) != canon(sc[i], o):
                 why = "implementation differs from the proved model"
